@@ -326,6 +326,27 @@ def run(case):
                     c.close(f"{mlab}/p={p}/axial", "axial resultant of the follower pressure on a surface of revolution", f[:, 0].sum(), -p * axial, max(abs(p) * 2 * np.pi, 1e-9), 1e-9)
                 else:
                     c.close(f"{mlab}/p={p}/resultant", "follower pressure resultant = -p * integrated current area vector", f.sum(0), -p * tot, max(abs(p) * np.abs(x).max() ** (mesh.dim - 1), 1e-9), 1e-9)
+                # a pressure that varies along the surface, given per quadrature point and boundary cell (q, c), per cell (c,)
+                # and as a constant array: resultant = - sum_qc p_qc da_qc with the current area vectors da = J F^-T dA
+                if fk != "axi":
+                    Fb = fb.extract()[0]
+                    dA_ = np.asarray(rb.dA, float)
+                    if dA_.shape[0] < Fb.shape[0]:
+                        dA_ = np.pad(dA_, ((0, Fb.shape[0] - dA_.shape[0]), (0, 0), (0, 0)))
+                    Fi = np.linalg.inv(np.moveaxis(Fb, (0, 1), (-2, -1)))  # q,c,3,3
+                    da_ = np.linalg.det(np.moveaxis(Fb, (0, 1), (-2, -1)))[None] * np.einsum("qcji,jqc->iqc", Fi, dA_)
+                    hq_ = np.asarray(rb.h)[:, :, 0] if np.asarray(rb.h).ndim == 3 else np.asarray(rb.h)
+                    Xq_ = np.einsum("caI,aq->Iqc", mesh.points[rb.mesh.cells], hq_)
+                    nq_, nc_ = dA_.shape[1:]
+                    for alab, parr in (("(q,c)-affine", p * (1.0 + 0.3 * Xq_[0] - 0.2 * Xq_[1])), ("(c,)", p * (1.0 + 0.1 * np.arange(nc_))), ("(q,c)-constant", p * np.ones((nq_, nc_)))):
+                        try:
+                            ra_ = fem.SolidBodyPressure(fb, pressure=parr).assemble.vector(fb).toarray()[:, 0]
+                        except Exception as ex:  # noqa
+                            c.bad(f"{mlab}/p={p}/array={alab}/exception", "array-valued pressure raised", repr(ex)[:160], "a vector")
+                            continue
+                        c.trans += 1
+                        want_ = -(np.broadcast_to(parr, (nq_, nc_))[None] * da_).sum((1, 2))[: mesh.dim]
+                        c.close(f"{mlab}/p={p}/array={alab}/resultant", "resultant of a pressure given as an array over quadrature points / cells of the boundary = - sum p da", ra_.reshape(-1, mesh.dim).sum(0), want_, max(abs(p) * np.abs(x).max() ** (mesh.dim - 1), 1e-9), 1e-9)
                 if load.assemble.multiplier != -1.0:
                     c.bad("multiplier", "a load enters the residual with multiplier -1", load.assemble.multiplier, -1.0)
                 # call history on the same item: vector(), vector(pressure=2.5), vector(pressure=-0.4), vector(field, pressure=1.5),
